@@ -163,3 +163,190 @@ Example C12_example :
            OutRead RNothing]
   /\ files_view (snd r) = [].
 Proof. vm_compute. split; reflexivity. Qed.
+
+(* ---------------------------------------------------------------------------------------------
+   Quiescence (last sentence of C12): "at any fixed instant repeated reads return 'nothing to send'
+   after finitely many packets, and once no object remains only FDT packets are ever produced".
+   [MUs fdt_npk now s] is an explicit bound: packets the encoders in the slots still hold, plus
+   (transfers that can still start at [now]) x (packets of one transfer) for every object in a
+   slot, in the waiting list, for the current and the queued FDT instances, plus the packets of the
+   FDT instances that can still be published at [now] (one per start of a file transfer unless
+   FullFDT, one for expiry).  Premises [reach_ok]: those of C13 (ascending queue keys, [ops_fresh],
+   [ops_nz]) and three that the unconditional statement needs - each is refuted below without it:
+   [cfg_ok]: fdt_duration > 0, the FDT carousel is not CNone and its delay is >= 0;
+   [ops_car]: carousel delays of accepted adds are >= 0 (Rust Durations are; the model uses Z). *)
+From FluteV Require Import Proofs.C13Full Proofs.C12Quiesce.
+From Coq Require Import Sorted.
+
+(* the bound without [cfg_ok], and without [ops_car]: both FALSE of the model (closed by computation
+   on the runs of examples (a) and (c) below: 5 packets against a bound of 1, 8 against 2) *)
+Theorem C12_quiesce_bound_without_cfg_refuted : ~ packets_bounded_without_cfg.
+Proof. exact packets_bounded_without_cfg_false. Qed.
+Print Assumptions C12_quiesce_bound_without_cfg_refuted.
+
+Theorem C12_quiesce_bound_without_car_refuted : ~ packets_bounded_without_car.
+Proof. exact packets_bounded_without_car_false. Qed.
+Print Assumptions C12_quiesce_bound_without_car_refuted.
+
+(* the streams below do not stop at all: 200 reads at one instant, 200 packets; after every packet
+   the state has the shape it had one read earlier (same session contents, FDT instance id and
+   object index one higher in (a) and (b); identical times and count, only t_total one higher, in (c)), so the next read
+   takes the same branch *)
+Definition quiet_within (k : nat) (now : Z) (s : st) : bool :=
+  negb (all_pkt (fst (read_n cex_npk cex_ok cex_div now k s))).
+
+(* (a) fdt_duration = 0 (a legal value of the Rust configuration): every time the FDT session is
+   free the FDT "will expire" (duration <= elapsed, 0 <= 0), a new instance is published and sent:
+   RFdt 1, RFdt 2, ... at the same instant, for ever - each read republishes because last_publish =
+   now still satisfies 0 <= now - last_publish; file objects are never served *)
+Example C12_quiesce_refuted_fdt_duration_0 :
+  let s := init_st true 0 (CDelay 1000000000) 1 [(0, 1%nat)] in
+  quiet_within 200 0 s = false
+  /\ fst (read_n cex_npk cex_ok cex_div 0 4 s) = [RFdt 1 false; RFdt 2 false; RFdt 3 false; RFdt 4 false]
+  /\ cfg_ok 0 (CDelay 1000000000) = false.
+Proof. vm_compute. repeat split; reflexivity. Qed.
+
+(* (b) FDT carousel CNone (not expressible in Rust: carousel_mode is not optional for the FDT): the
+   instance expires after its only transfer, current_fdt_transfer = None makes the FDT "expire",
+   a new instance is published at once *)
+Example C12_quiesce_refuted_fdt_carousel_none :
+  let s := init_st true 3600000000000 CNone 1 [(0, 1%nat)] in
+  quiet_within 200 0 s = false
+  /\ fst (read_n cex_npk cex_ok cex_div 0 4 s) = [RFdt 1 true; RFdt 2 true; RFdt 3 true; RFdt 4 true]
+  /\ cfg_ok 3600000000000 CNone = false.
+Proof. vm_compute. repeat split; reflexivity. Qed.
+
+(* (c) a negative carousel delay (not a Rust Duration): d < max 0 (now - last_end) holds at the
+   instant the transfer ended, the carousel restarts for ever *)
+Example C12_quiesce_refuted_negative_delay :
+  let od := mk_odesc 1 0 1 1 1 (CDelay (-1)) TNone false None [] in
+  let ops := [OpAdd od None true] in
+  let i := init_st true 3600000000000 (CDelay 1000000000) 1 [(0, 1%nat)] in
+  let s := snd (run_ops cex_npk cex_ok cex_div i ops) in
+  quiet_within 200 0 s = false
+  /\ fst (read_n cex_npk cex_ok cex_div 0 4 s) = [RFdt 1 false; RObj 1 false; RObj 1 false; RObj 1 false]
+  /\ (ops_fresh cex_npk cex_ok cex_div i ops, ops_nz ops, cfg_ok 3600000000000 (CDelay 1000000000), ops_car ops)
+     = (true, true, true, false).
+Proof. vm_compute. repeat split; reflexivity. Qed.
+
+(* (d) [ops_nz] (no add under TOI 0, premise of C13) is needed for the bound, not for silence: the
+   end of the transfer of a non-carousel object with TOI 0 clears current_fdt_transfer
+   (transfer_done, TOI-0 branch), so the FDT is republished once more: 5 packets, bound 4 *)
+Example C12_quiesce_bound_needs_nz :
+  let i := init_st true 3600000000000 (CDelay 1000000000) 1 [(0, 2%nat)] in
+  let ops := [OpAdd (mk_odesc 0 0 1 1 1 CNone TNone false None []) None true;
+              OpAdd (mk_odesc 3 0 1 1 2 (CDelay 0) TNone false None []) None true] in
+  let s := snd (run_ops cex_npk cex_ok cex_div i ops) in
+  (MUs cex_npk 0 s, fst (read_n cex_npk cex_ok cex_div 0 7 s), ops_nz ops, ops_fresh cex_npk cex_ok cex_div i ops, ops_car ops)
+  = (4%nat, [RFdt 1 false; RObj 0 true; RObj 3 false; RObj 3 false; RFdt 2 false; RNothing; RNothing], false, true, true).
+Proof. vm_compute. reflexivity. Qed.
+
+(* Q1 (a): at any instant and for any number of reads, at most MUs packets *)
+Theorem C12_quiesce_packets_bounded : forall fdt_npk fdt_ok divf full dur car sid queues ops now k,
+  reach_ok fdt_npk fdt_ok divf full dur car sid queues ops ->
+  let s := snd (run_ops fdt_npk fdt_ok divf (init_st full dur car sid queues) ops) in
+  (pkt_count (fst (read_n fdt_npk fdt_ok divf now k s)) <= MUs fdt_npk now s)%nat.
+Proof. exact quiesce_packets_bounded. Qed.
+Print Assumptions C12_quiesce_packets_bounded.
+
+(* Q1 (b): n <= MUs reads that return a packet, then a read that returns RNothing (or RPanic, the
+   panic of Duration::div_f64); after RNothing every further read at that instant returns RNothing
+   and leaves the whole state unchanged *)
+Theorem C12_quiesce_reads : forall fdt_npk fdt_ok divf full dur car sid queues ops now,
+  reach_ok fdt_npk fdt_ok divf full dur car sid queues ops ->
+  let s := snd (run_ops fdt_npk fdt_ok divf (init_st full dur car sid queues) ops) in
+  exists n, (n <= MUs fdt_npk now s)%nat
+    /\ Forall (fun o => is_pkt o = true) (fst (read_n fdt_npk fdt_ok divf now n s))
+    /\ let (o, s1) := sender_read fdt_npk fdt_ok divf now (snd (read_n fdt_npk fdt_ok divf now n s)) in
+       (o = RNothing \/ o = RPanic)
+       /\ (o = RNothing -> forall k, read_n fdt_npk fdt_ok divf now k s1 = (repeat RNothing k, s1)).
+Proof. exact quiesce_reads. Qed.
+Print Assumptions C12_quiesce_reads.
+
+(* Q1 (c): idempotence of a silent read at a fixed instant: the state is a fixed point *)
+Theorem C12_quiesce_silent_read_idempotent : forall fdt_npk fdt_ok divf full dur car sid queues ops now s1,
+  reach_ok fdt_npk fdt_ok divf full dur car sid queues ops ->
+  let s := snd (run_ops fdt_npk fdt_ok divf (init_st full dur car sid queues) ops) in
+  sender_read fdt_npk fdt_ok divf now s = (RNothing, s1) ->
+  sender_read fdt_npk fdt_ok divf now s1 = (RNothing, s1).
+Proof. exact quiesce_silent_read_idempotent. Qed.
+Print Assumptions C12_quiesce_silent_read_idempotent.
+
+(* Q1 (d): one read: the bound does not grow, a packet lowers it; RFuel (fuel of the session loop)
+   never occurs; RPanic does not occur when div_f64 is defined for >= 1 packet *)
+Theorem C12_quiesce_read_step : forall fdt_npk fdt_ok divf full dur car sid queues ops now o s',
+  reach_ok fdt_npk fdt_ok divf full dur car sid queues ops ->
+  let s := snd (run_ops fdt_npk fdt_ok divf (init_st full dur car sid queues) ops) in
+  sender_read fdt_npk fdt_ok divf now s = (o, s') ->
+  (MUs fdt_npk now s' <= MUs fdt_npk now s)%nat
+  /\ (is_pkt o = true -> (S (MUs fdt_npk now s') <= MUs fdt_npk now s)%nat)
+  /\ o <> RFuel
+  /\ ((forall d n, 1 <= n -> divf d n <> None) -> o <> RPanic).
+Proof. exact quiesce_read_step. Qed.
+Print Assumptions C12_quiesce_read_step.
+
+(* the same for any state that satisfies the invariant (init_st establishes it, every operation
+   that passes op_fresh / op_nz / op_car preserves it) *)
+Theorem C12_quiesce_invariant_read : forall fdt_npk fdt_ok divf now s o s',
+  QInv s -> sender_read fdt_npk fdt_ok divf now s = (o, s') ->
+  QInv s' /\ (MUs fdt_npk now s' <= MUs fdt_npk now s)%nat
+  /\ (is_pkt o = true -> (S (MUs fdt_npk now s') <= MUs fdt_npk now s)%nat) /\ o <> RFuel.
+Proof. exact read_mu. Qed.
+Print Assumptions C12_quiesce_invariant_read.
+
+(* Q2: Fdt.files empty and no session holds a file object: as long as no add is accepted, no
+   operation returns an object packet (reads return RNothing, RFdt, or RPanic/never RFuel) *)
+Theorem C12_only_fdt_when_no_object : forall fdt_npk fdt_ok divf full dur car sid queues ops more,
+  reach_ok fdt_npk fdt_ok divf full dur car sid queues ops ->
+  let s := snd (run_ops fdt_npk fdt_ok divf (init_st full dur car sid queues) ops) in
+  files s = [] -> slot_ids (all_sessions (squeues s)) = [] ->
+  forallb op_no_add more = true ->
+  Forall out_not_obj (fst (run_ops fdt_npk fdt_ok divf s more)).
+Proof. exact only_fdt_when_no_object. Qed.
+Print Assumptions C12_only_fdt_when_no_object.
+
+(* non-vacuity.  ObjectsBeingTransferred mode, FDT carousel delay 0, two slots; object 1: carousel
+   delay 0, one packet; object 2: two transfers of two packets.  At instant 0: bound 9, exactly 9
+   packets (FDT 1 by expiry, FDT 2 and 3 by the two starts, FDT 4 by the second start of object 2),
+   then silence and a fixed point; object 2 is gone, object 1 waits for its carousel.  At instant 5
+   (the delay 0 has elapsed): bound 3 = the FDT carousel, the republication by the restart of
+   object 1, object 1; then silence again. *)
+Example C12_quiesce_example :
+  let i := init_st false 3600000000000 (CDelay 0) 1 [(0, 2%nat)] in
+  let odA := mk_odesc 1 0 1 1 1 (CDelay 0) TNone false None [] in
+  let odB := mk_odesc 2 0 2 2 2 CNone TNone false None [] in
+  let ops := [OpAdd odA None true; OpAdd odB None true] in
+  let s := snd (run_ops cex_npk cex_ok cex_div i ops) in
+  let s9 := snd (read_n cex_npk cex_ok cex_div 0 9 s) in
+  let s10 := snd (read_n cex_npk cex_ok cex_div 0 10 s) in
+  (ops_fresh cex_npk cex_ok cex_div i ops, ops_nz ops, ops_car ops, cfg_ok 3600000000000 (CDelay 0)) = (true, true, true, true)
+  /\ MUs cex_npk 0 s = 9%nat
+  /\ fst (read_n cex_npk cex_ok cex_div 0 12 s) =
+     [RFdt 1 false; RFdt 2 false; RFdt 3 false; RObj 1 false; RObj 2 false; RObj 2 false;
+      RFdt 4 false; RObj 2 false; RObj 2 true; RNothing; RNothing; RNothing]
+  /\ MUs cex_npk 0 s9 = 0%nat
+  /\ sender_read cex_npk cex_ok cex_div 0 s10 = (RNothing, s10)
+  /\ files_view s10 = [(1, 1)]
+  /\ MUs cex_npk 5 s10 = 3%nat
+  /\ fst (read_n cex_npk cex_ok cex_div 5 5 s10) = [RFdt 4 false; RFdt 5 false; RObj 1 false; RNothing; RNothing].
+Proof. vm_compute. repeat split; reflexivity. Qed.
+
+Example C12_quiesce_example_premises :
+  reach_ok cex_npk cex_ok cex_div false 3600000000000 (CDelay 0) 1 [(0, 2%nat)]
+           [OpAdd (mk_odesc 1 0 1 1 1 (CDelay 0) TNone false None []) None true;
+            OpAdd (mk_odesc 2 0 2 2 2 CNone TNone false None []) None true].
+Proof. split; [repeat constructor|]. vm_compute. repeat split; reflexivity. Qed.
+
+(* Q2 non-vacuity: FullFDT, one object of one transfer; after it is gone: FDT carousel only *)
+Example C12_only_fdt_example :
+  let i := init_st true 3600000000000 (CDelay 1000000000) 1 [(0, 1%nat)] in
+  let od := mk_odesc 1 0 2 2 1 CNone TNone false None [] in
+  let ops := [OpAdd od None true; OpPublish 0; OpRead 0; OpRead 0; OpRead 0; OpRead 0] in
+  let s := snd (run_ops cex_npk cex_ok cex_div i ops) in
+  let more := [OpRead 0; OpRead 2000000000; OpRemove 1; OpPublish 2000000000; OpRead 2000000000;
+               OpRead 2000000000; OpRead 4000000000; OpAdd od None false; OpRead 4000000000] in
+  (files s, slots_empty s, forallb op_no_add more) = ([], true, true)
+  /\ fst (run_ops cex_npk cex_ok cex_div s more) =
+     [OutRead RNothing; OutRead (RFdt 1 false); OutRemove false; OutPublish true; OutRead (RFdt 2 false);
+      OutRead RNothing; OutRead (RFdt 2 false); OutAdd false; OutRead RNothing].
+Proof. vm_compute. repeat split; reflexivity. Qed.
